@@ -487,13 +487,24 @@ Proof.
     unfold implicit_users. change (e_model s') with (e_model s).
     destruct (m_values (e_model s) s_p s_p 0) as [subjects|]; [|reflexivity].
     destruct (m_values (e_model s) s_g s_g 1) as [roles|]; [|reflexivity].
-    cbn [ans_eq]. intros x. rewrite !dedup_In, !filter_In, !in_app_iff, !in_flat_map.
-    rewrite (sd_enforce _ _ _ Hd).
-    assert (Hu : forall r, In x (get_users (f_rm (e_fs s')) r None) <->
-                           In x (get_users (f_rm (e_fs s)) r None)).
-    { intros r. apply (get_users_equiv _ _ r None Hwf' Hwf He x). }
-    split; intros [[[[H|[r [Hr H]]] H2] H3] H4]; (split; [split; [split; [|exact H2]|exact H3]|exact H4]);
-      auto; right; exists r; (split; [exact Hr|]); apply Hu, H.
+    assert (Hu : forall x r, In x (get_users (f_rm (e_fs s')) r None) <->
+                             In x (get_users (f_rm (e_fs s)) r None)).
+    { intros x r. apply (get_users_equiv _ _ r None Hwf' Hwf He x). }
+    assert (Hmem : forall x,
+      In x (filter (fun u => negb (memb teqb u roles))
+                   (subjects ++ flat_map (fun r => get_users (f_rm (e_fs s')) r None) roles)) <->
+      In x (filter (fun u => negb (memb teqb u roles))
+                   (subjects ++ flat_map (fun r => get_users (f_rm (e_fs s)) r None) roles))).
+    { intros x. rewrite !filter_In, !in_app_iff, !in_flat_map.
+      split; intros [[H|[r [Hr H]]] H2]; (split; [|exact H2]); auto; right; exists r;
+        (split; [exact Hr|]); apply Hu, H. }
+    rewrite (existsb_same_members _
+               (fun u => match enforce ptab s (map VStr (u :: perm)) with Panic => true | _ => false end)
+               _ _ Hmem)
+      by (intros u; rewrite (sd_enforce _ _ _ Hd); reflexivity).
+    match goal with |- context [if ?c then _ else _] => destruct c end; [reflexivity|].
+    cbn [ans_eq]. intros x. rewrite !dedup_In, !filter_In. rewrite (sd_enforce _ _ _ Hd).
+    pose proof (Hmem x) as Hx. rewrite !filter_In in Hx. tauto.
   - rewrite (sd_has_link _ _ _ Hd). reflexivity.
 Qed.
 
